@@ -706,6 +706,38 @@ example :
     let p := ((q.set 5 ⟨5/4, 1, 0⟩).set 6 ⟨9/4, 1, 0⟩).set 9 ⟨5/4, 2, 0⟩
     linfDist p q = 1/4 ∧ linfDist (smooth g [] 1 p) q ≤ (1 - (1 / (4 : Rat)) ^ 1) * (1/4) := by decide +kernel
 
+/-- every anchored grid has a level function (the number of links to the frame), a degree bound and a depth -/
+theorem T_C15_anchored_levelled (g : Grid) (fixed : List Nat)
+    (hr : ∀ j ∈ inner g, j ∉ fixed → Reach (junctionNbrs g) (fun j => j ∈ inner g ∧ j ∉ fixed) j) :
+    ∃ lvl Δ d, Levelled g fixed lvl Δ d := by
+  obtain ⟨B1, h1⟩ := exists_bound (inner g) (fun j => (junctionNbrs g j).length)
+  obtain ⟨B2, h2⟩ := exists_bound (inner g) (levelOf (junctionNbrs g) (fun j => j ∈ inner g ∧ j ∉ fixed))
+  refine ⟨levelOf (junctionNbrs g) (fun j => j ∈ inner g ∧ j ∉ fixed), B1 + 1, B2, by omega, fun j hj hf => ⟨?_, ?_, h2 j hj⟩⟩
+  · exact levelOf_nbr _ _ j ⟨hj, hf⟩ (reachN_of_reach (hr j hj hf))
+  · have := h1 j hj; omega
+
+/-- **Convergence of smoothing on every anchored grid, with an explicit geometric bound.**  If every free inner junction
+    is linked to the frame (decided by the model per grid: `anchoredB`), there are a number of iterations `d` and a factor
+    `r < 1` — `r = 1 − Δ^(−d)` for the depth `d` and the largest degree `Δ` of the graph — such that, for every fixed point
+    `q` and every start `p` with the same boundary and fixed positions, `k·d` iterations bring the positions within
+    `r^k` times the initial max-norm distance of `q`, for every `k`.  So "after enough iterations each free point equals
+    its neighbours' average" holds to any accuracy `ε` as soon as `r^k · linfDist p q ≤ ε`. -/
+theorem T_C15_converges (g : Grid) (fixed : List Nat) (ha : anchoredB g fixed = true) :
+    ∃ (d : Nat) (r : Rat), 0 ≤ r ∧ r < 1 ∧
+      ∀ q p : List V3, smooth g fixed 1 q = q → p.length = g.n → q.length = g.n →
+        (∀ i, isBoundary g i = true ∨ i ∈ fixed → pget p i = pget q i) →
+        ∀ k, linfDist (smooth g fixed (k * d) p) q ≤ r ^ k * linfDist p q := by
+  obtain ⟨lvl, Δ, d, hL⟩ := T_C15_anchored_levelled g fixed (reach_of_anchoredB g fixed ha)
+  refine ⟨d, 1 - (1 / (Δ : Rat)) ^ d, ?_, ?_, fun q p hq hp hqn hb k => (T_C15_rate_geometric g fixed lvl Δ d hL q p hq hp hqn hb k).1⟩
+  · have hD : (1 : Rat) ≤ (Δ : Rat) := by exact_mod_cast hL.1
+    rw [← bnd_closed (Δ : Rat) (by linarith) d]; exact (bnd_range (Δ : Rat) hD d).1
+  · have hD : (1 : Rat) ≤ (Δ : Rat) := by exact_mod_cast hL.1
+    have : 0 < (1 / (Δ : Rat)) ^ d := pow_pos (by apply div_pos <;> linarith) d
+    linarith
+
+/-- non-vacuity: the structured 4×4 map and the 2×2×2 hexahedral assembly are anchored -/
+example : anchoredB (structQuads 4 4) [] = true ∧ anchoredB (structHexes 2 2 2) [] = true := by decide +kernel
+
 /-- **Uniqueness of the fixed point (discrete maximum principle)**, every graph: two position lists that are both
     unchanged by a sweep and agree on all boundary and fixed junctions are equal, as soon as every free inner
     junction is linked to a boundary or fixed junction along neighbour links. -/
